@@ -60,19 +60,29 @@ impl KValue {
     ///
     /// This is used by `koto.deep_copy`.
     pub fn deep_copy(&self) -> Result<KValue> {
+        // Lists and maps can contain themselves,
+        // the nesting is limited so that making a copy can't recurse endlessly.
+        self.deep_copy_with_nesting_limit(256)
+    }
+
+    fn deep_copy_with_nesting_limit(&self, nesting_limit: usize) -> Result<KValue> {
+        let Some(nesting_limit) = nesting_limit.checked_sub(1) else {
+            return runtime_error!("too many nested containers while making a deep copy");
+        };
+
         let result = match &self {
             KValue::List(l) => {
                 let result = l
                     .data()
                     .iter()
-                    .map(|v| v.deep_copy())
+                    .map(|v| v.deep_copy_with_nesting_limit(nesting_limit))
                     .collect::<Result<_>>()?;
                 KList::with_data(result).into()
             }
             KValue::Tuple(t) => {
                 let result = t
                     .iter()
-                    .map(|v| v.deep_copy())
+                    .map(|v| v.deep_copy_with_nesting_limit(nesting_limit))
                     .collect::<Result<Vec<_>>>()?;
                 KValue::Tuple(result.into())
             }
@@ -80,7 +90,10 @@ impl KValue {
                 let data = m
                     .data()
                     .iter()
-                    .map(|(k, v)| v.deep_copy().map(|v| (k.clone(), v)))
+                    .map(|(k, v)| {
+                        v.deep_copy_with_nesting_limit(nesting_limit)
+                            .map(|v| (k.clone(), v))
+                    })
                     .collect::<Result<_>>()?;
                 let meta = m.meta_map().map(|meta| meta.borrow().clone());
                 KMap::with_contents(data, meta).into()
